@@ -80,3 +80,33 @@ PROPS["C02"] = dict(
     ],
     min_class_fraction={"ast_changed_by_optimizer": 0.2, "impure_calls_executed": 0.01},
 )
+
+
+PROPS["C16"] = dict(
+    pkg="c16",
+    rule=("programs from the C01 generator whose top-level arguments are taken as attributes of ONE argument map: exp is generated with "
+          "GenerateWithMap(exp, m); exp' is derived by rewriting exactly the free occurrences of the attribute names into m.x with the "
+          "generator's knowledge of the binding structure (lets, func names, parameters shadow; constants and static functions are never "
+          "attributes) and generated with Generate(exp', m); both are evaluated on the same map (ListMap, RealMap, put-chain and merged "
+          "representations, optionally with decoy keys named like constants and static functions) and compared with each other and with "
+          "the reference interpreter, optimizer on and off. In a third of the cases the attribute names collide with names used for "
+          "locals elsewhere (a, k, v). Non-trivial: at least one free attribute occurrence lies inside a closure or func body; distinct = "
+          "program text + map."),
+    assumptions=PROG_ASSUMPTIONS,
+    jobs=[dict(name="c16", run="^TestPropC16$", kind="rapid", shards=16, checks={"quick": 100000, "thorough": 3000000},
+               guard={"quick": 900, "thorough": 7200})],
+    min_class_fraction={"attribute_read_inside_closure_or_func": 0.2, "attribute_names_collide_with_locals": 0.1},
+)
+
+PROPS["C10"] = dict(
+    pkg="c10",
+    rule=("histories on ONE generator: 1..3 generated programs (35% with failing paths), 2..4 argument tuples each, and 4..50 steps drawn "
+          "from: evaluate (f,t); evaluate and hold the possibly lazy result unconsumed; consume a held result later; evaluate and consume "
+          "only k elements of a lazy list; Generate a program again in between. Every outcome - including results consumed many steps "
+          "after their evaluation - must equal the reference interpreter's outcome for its own arguments (hence the first outcome for the "
+          "same pair). Non-trivial: a function saw >=2 distinct tuples and a tuple was re-evaluated after a failing, held or partially "
+          "consumed evaluation or an intervening Generate; distinct = program texts + step sequence."),
+    assumptions=PROG_ASSUMPTIONS,
+    jobs=[dict(name="c10", run="^TestPropC10$", kind="rapid", shards=16, checks={"quick": 20000, "thorough": 500000},
+               guard={"quick": 900, "thorough": 7200})],
+)
